@@ -174,7 +174,8 @@ class Runner:
     def execute(self, ev):
         if self.shut and ev[0] in ("R", "M", "E"):
             return                      # a closed transport delivers nothing
-        self.log.append(("in", in_token(ev), ev[1], ev))
+        if ev[0] != "X":        # the shutdown task logs itself when it really starts
+            self.log.append(("in", in_token(ev), ev[1], ev))
         try:
             getattr(self, "do_" + ev[0])(ev)
         except Exception as e:            # an exception escaping into the transport/loop
@@ -198,9 +199,12 @@ class Runner:
         self.net.inject_error(errno.ECONNREFUSED, netsim.peer(ev[2]))
 
     def do_X(self, ev):
+        if self.shut:
+            return                      # a context is shut down once
         self.shut = True
 
         async def shut():
+            self.log.append(("in", in_token(ev), self.loop.now_ticks(), ev))
             try:
                 await self.ctx.shutdown()
             except Exception as e:
